@@ -97,6 +97,10 @@ impl<R: Read + Seek> ReadBox<&mut R> for StblBox {
                     "stbl box contains a box with a larger size than it",
                 ));
             }
+            if s == 0 {
+                // A zero-size child never advances the stream: stop instead of looping forever.
+                break;
+            }
 
             match name {
                 BoxType::StsdBox => {
